@@ -403,6 +403,25 @@ fn seq_family(prop: &str) -> i32 {
         }
         scen.push(stats_json(&format!("{} salt0", crate::hist::Scenario::name(&sc)), &st));
     }
+    // short L1 tables which have to be relocated: one whose full entry count (130) is no multiple of
+    // the entries per block, one of two clusters
+    for (img, gw, far) in [(crate::extra::short_l1_odd_image(), crate::extra::g9_wide(130), 129u64), (crate::extra::short_l1_two_image(), crate::extra::g9_wide(192), 191u64)] {
+        let (cs, tb) = (gw.cs(), gw.tb());
+        let w = |off: u64, len: u64, tag: u32| Op::Write { off, len: len as usize, tag };
+        let alpha = vec![w(tb, cs, 1), w(64 * tb, cs, 2), w(far * tb + cs, cs, 3), w(65 * tb - cs, 2 * cs, 4), Op::Flush, Op::Reopen];
+        qcow2_rs::verif::set_order_salt(0);
+        let mut sc = SeqScenario::new(img.clone(), gw.cfg_small(), gw.cfg_alt(), "small", alpha, oracles.clone());
+        sc.full_sweep = false;
+        let lim = BfsLimits { depth: if thorough { 4 } else { 3 }, max_states: 3_000_000, deadline: deadline_in(if thorough { 200 } else { 8 }) };
+        let st = bfs(&sc, &lim, &mut viol);
+        states += st.states;
+        trans += st.transitions;
+        outcomes += st.distinct_outcomes;
+        if st.capped || st.depth_completed < st.depth_target {
+            all_complete = false;
+        }
+        scen.push(stats_json(&format!("{} salt0", crate::hist::Scenario::name(&sc)), &st));
+    }
     // fragmented host space: multi-cluster allocations that cross refblock slices and must retry
     {
         let gf = crate::extra::GF;
@@ -443,6 +462,14 @@ fn seq_family(prop: &str) -> i32 {
             }
         }
     }
+    // C02 quantifies over any history: also the ones in which a backend request failed, the
+    // backend healed and flush_meta then returned Ok
+    let mut fault_json = json!(null);
+    if prop == "C02" {
+        let (v, j) = faulted_histories_part(thorough);
+        run.add_all(v);
+        fault_json = j;
+    }
     let cov = json!({
         "states": states,
         "transitions": trans,
@@ -451,6 +478,7 @@ fn seq_family(prop: &str) -> i32 {
         "evaluations": trans,
         "distinct_nontrivial": outcomes,
         "concurrent_part": sched_json,
+        "faulted_histories_part": fault_json,
         "checker_selftest": selftest_json,
         "rule": "explicit-state BFS over operation histories on the real code (every transition = one replay of the history on a fresh simulated host); states merged by digest of files + in-RAM metadata + reference disk; distinct_nontrivial = number of distinct (operation kind, result, data returned) outcomes observed",
         "exhaustive": all_complete,
@@ -506,6 +534,8 @@ pub fn sched_setups(g: &Geo) -> Vec<(&'static str, &'static str, Vec<Op>)> {
         ("Xdirty", "libfmt", vec![wx.clone()]),
         ("XYflushed", "libfmt", vec![wx.clone(), wy.clone(), Op::Flush]),
         ("Xdiscarded", "libfmt", vec![wx.clone(), Op::Flush, Op::Discard { off: 0, len: cs }]),
+        // cold caches: the concurrent calls wait for slice loads (refcount blocks included)
+        ("XYcold", "libfmt", vec![wx.clone(), wy.clone(), Op::Flush, Op::Reopen]),
         ("backing", "backing", vec![]),
         ("compressed", "compressed", vec![]),
     ]
@@ -577,6 +607,8 @@ pub fn growth_sched_scenarios() -> Vec<SchedScenario> {
         ("rt-growth-vs-write", vec![], vec![vec![w(8000 * cs, 3 * cs, 0x11)], vec![w(8100 * cs, cs, 0x12)]]),
         ("rt-growth-vs-flush", vec![w(8000 * cs, cs, 0x51)], vec![vec![w(8010 * cs, 3 * cs, 0x11)], vec![Op::Flush]]),
         ("rt-growth-vs-discard", vec![], vec![vec![w(8000 * cs, 3 * cs, 0x11)], vec![Op::Discard { off: 0, len: 2 * cs }]]),
+        // the released old table's cluster is not punched: a first write to a fresh guest cluster gets it, a reader races the write
+        ("recycled-cluster-write-vs-read", vec![w(8000 * cs, 3 * cs, 0x51)], vec![vec![w(8003 * cs, 512, 0x11)], vec![Op::Read { off: 8003 * cs, len: 512 }]]),
         ("rt-growth-vs-flush-vs-write", vec![w(8000 * cs, cs, 0x51)], vec![vec![w(8010 * cs, 3 * cs, 0x11)], vec![Op::Flush], vec![w(8100 * cs, cs, 0x12)]]),
     ];
     for (name, setup, tasks) in rt_scn {
@@ -693,6 +725,8 @@ pub fn sched_explore(run: &Run, want: &[&str], scenarios: &[SchedScenario], boun
                     (Err(e), _) | (_, Err(e)) => return (sc.describe(), Err(e), viols),
                 }
             }
+            // executions on the multi-megabyte growth images cost ~10 ms each: smaller budget
+            let per_scn_execs = if sc.img.files[0].len() > (1 << 20) { per_scn_execs / 20 } else { per_scn_execs };
             for b in 0..=bound {
                 let r = explore(sc, b, per_scn_execs, deadline, |sc, x| {
                     let o = lin::judge(sc, x, want);
@@ -762,9 +796,12 @@ pub fn sched_explore(run: &Run, want: &[&str], scenarios: &[SchedScenario], boun
 /// scenarios in which a flush_meta / shrink_caches runs concurrently with something else
 pub fn flush_scenarios(thorough: bool) -> Vec<SchedScenario> {
     let g = images::G10;
-    let setups: Vec<&str> = if thorough { vec!["empty", "Xdirty", "XYflushed", "Xdiscarded"] } else { vec!["Xdirty", "XYflushed"] };
+    let setups: Vec<&str> = if thorough { vec!["empty", "Xdirty", "XYflushed", "Xdiscarded", "XYcold"] } else { vec!["Xdirty", "XYflushed", "XYcold"] };
     let mut v = sched_scenarios(&g, &setups, &["small", "ample"], true);
     v.retain(|s| s.tasks.iter().any(|t| t.iter().any(|o| matches!(o, Op::Flush | Op::Shrink))));
+    if let Ok(f) = std::env::var("QMC_ONLY") {
+        v.retain(|s| s.name.contains(&f));
+    }
     v
 }
 
@@ -777,7 +814,7 @@ pub fn sched_family(prop: &str) -> i32 {
         bound = b;
     }
     let setups: Vec<&str> = if thorough {
-        vec!["empty", "Xdirty", "XYflushed", "Xdiscarded", "backing", "compressed"]
+        vec!["empty", "Xdirty", "XYflushed", "Xdiscarded", "XYcold", "backing", "compressed"]
     } else {
         vec!["empty", "Xdirty", "XYflushed"]
     };
@@ -1029,6 +1066,60 @@ pub fn crash_family(prop: &str) -> i32 {
     ])
 }
 
+
+/// every history of the fault alphabet x every single request failing, heal, flush until Ok,
+/// then old device vs. a device opened on the same bytes (the C02 oracle inside fault.rs)
+pub fn faulted_histories_part(thorough: bool) -> (Vec<Violation>, Value) {
+    use crate::fault::{all_histories, FaultScenario, FaultStats, Plan};
+    let plans: Vec<(Geo, Vec<&str>, usize)> = if thorough {
+        vec![(images::G9, vec!["libfmt", "data"], 3), (images::G10, vec!["libfmt", "data", "compressed", "backing"], 3)]
+    } else {
+        vec![(images::G10, vec!["libfmt", "data"], 2), (images::G9, vec!["data"], 2)]
+    };
+    let deadline = deadline_in(if thorough { 600 } else { 15 });
+    let mut viols = vec![];
+    let (mut hn, mut runs) = (0u64, 0u64);
+    let mut capped = false;
+    for (g, kinds, depth) in plans {
+        for img in images::initial_images(&g, &kinds) {
+            let sc = FaultScenario { img: img.clone(), cfg: cfg_of(&g, "small"), cfg_name: "small".to_string() };
+            let mut alphabet = images::crash_alphabet(&g);
+            alphabet.retain(|o| !matches!(o, Op::Sync));
+            let hists = all_histories(&alphabet, depth);
+            let results: Vec<(FaultStats, Vec<Violation>)> = hists
+                .par_iter()
+                .map(|h| {
+                    let mut st = FaultStats::default();
+                    let mut v = vec![];
+                    if std::time::Instant::now() > deadline {
+                        return (st, v);
+                    }
+                    st.histories = 1;
+                    if let Ok((start, n)) = sc.count_requests(h) {
+                        for i in start..n {
+                            v.extend(sc.run(h, &Plan::Ids(vec![i]), &mut st));
+                        }
+                        v.extend(sc.run(h, &Plan::Kind('F'), &mut st));
+                    }
+                    v.retain(|x| x.prop == "C02");
+                    let mut seen = std::collections::HashSet::new();
+                    v.retain(|x| seen.insert(x.class.clone()));
+                    (st, v)
+                })
+                .collect();
+            for (s, v) in results {
+                hn += s.histories;
+                runs += s.runs;
+                viols.extend(v);
+                if s.histories == 0 {
+                    capped = true;
+                }
+            }
+        }
+    }
+    (viols, json!({"histories": hn, "fault_runs": runs, "capped": capped,
+        "rule": "all histories of the fault alphabet up to the depth x one run per backend request failing (+ every fsync failing); heal; flush_meta until Ok; the old device and a device opened on the same bytes must read the same"}))
+}
 
 // =====================================================================
 // FAULT: C17
@@ -1476,7 +1567,9 @@ pub fn growth_check() -> i32 {
         (crate::extra::rb_edge_image(), rb_alpha, if thorough { 5 } else { 3 }, if thorough { 300 } else { 10 }, true),
         (crate::extra::rb63_edge_image(), rb63_alpha, if thorough { 4 } else { 3 }, if thorough { 300 } else { 10 }, false),
         (crate::extra::rt_edge_image(), rt_alpha, if thorough { 4 } else { 3 }, if thorough { 600 } else { 15 }, false),
-        (crate::extra::short_l1_image(), l1_alpha, if thorough { 4 } else { 3 }, if thorough { 600 } else { 15 }, false),
+        (crate::extra::short_l1_image(), l1_alpha.clone(), if thorough { 4 } else { 3 }, if thorough { 600 } else { 15 }, false),
+        // relocation of a two-cluster L1 table: the released clusters are reused at once by the same write
+        (crate::extra::short_l1_two_image(), vec![w(130 * tb, cs, 4), w(191 * tb, 2 * cs, 5), w(64 * tb, cs, 2), Op::Read { off: 64 * tb, len: cs as usize }, Op::Flush, Op::Sync, Op::Reopen], 3, if thorough { 600 } else { 15 }, false),
         // short L1 whose cluster has room for the missing entries: extension in place
         (
             images::initial_images(&images::G9, &["shortl1"]).remove(0),
